@@ -1,6 +1,7 @@
 import Driver.Util
 import RainModel.Model.Blocks
 import RainModel.Model.Loop
+import RainModel.Model.LoopStep
 /-!
 Loop suites (`loop-dl`, `lifecycle`, …): replay of event-loop histories on M-LOOP.
 
@@ -112,109 +113,62 @@ def normMsg (msg : String) : String :=
     s!"extmeta:type={get "type"}:piece={get "piece"}{verdict}"
   else msg
 
-structure StepOut where
-  st : St
-  verdict : String
-  outs : List Out
-
-/-- The model's handling of one op (before worker completions). -/
-def applyOp (s : St) (op : String) (implVerdict : String) : StepOut :=
-  let toks := words op
-  let s := { s with sto := [], mayStart := [], closedDl := [], mayStartI := false }
-  let m : M := (s, [])
-  let fin (m : M) (v : String := "") : StepOut :=
-    let m := runWorkers 12 m
-    { st := m.1, verdict := v, outs := m.2 }
+/-- Parse an op line into the model's event. `none` = an op the model does not interpret. -/
+def parseOp (s : St) (toks : List String) : Option Op :=
   match toks.headD "" with
-  | "start" => fin (start m)
-  | "stop" => fin (onSt (onSt m (·.stop false)) fun s => { s with gateOpen := false, gateRead := false })
-  | "verify" => fin (onSt (handleVerifyCommand m) fun s => { s with gateOpen := false, gateRead := false })
-  | "obs" | "announce" | "diskcheck" | "magnet" => fin m
+  | "start" => some .start
+  | "stop" => some .stop
+  | "verify" => some .verify
+  | "obs" | "announce" | "diskcheck" | "magnet" => some .nop
   | "mutate" =>
-    if !s.openFiles.isEmpty || s.errC then fin m "skipped:not-stopped" else
     let file := if kvStr toks "file" = "all" then none else some (kvNat toks "file")
     let how := match kvStr toks "how" with
       | "delete" => Mut.delete | "corrupt" => Mut.corrupt (kvNat toks "off") | _ => Mut.fill
-    fin (onSt m fun s => mutate s file how)
+    some (.mutate file how)
   | "gate" =>
     let on := kvStr toks "on" ≠ "0"
-    let m := onSt m fun s =>
-      match kvStr toks "kind" with
-      | "open" => { s with gateOpen := on }
-      | "write" => { s with gateWrite := on }
-      | "read" => { s with gateRead := on }
-      | "failwrite" => { s with failWrite := on }
-      | "failopen" => { s with failOpen := on }
-      | _ => s
-    fin m
+    match kvStr toks "kind" with
+    | "open" => some (.gate .open on) | "write" => some (.gate .write on) | "read" => some (.gate .read on)
+    | "failwrite" => some (.gate .failWrite on) | "failopen" => some (.gate .failOpen on)
+    | _ => some .nop
   | "peer" =>
     let k := kvNat toks "k"
-    if (s.findPeer k).isSome then { st := s, verdict := "skipped:dup-peer", outs := [] }
-    else if !s.acceptor then fin m "skipped:no-acceptor"
-    else
-      let ip := if kvStr toks "ip" ≠ "" then kvStr toks "ip" else s!"10.0.{k / 250}.{k % 250 + 1}"
-      let (m, v) := acceptPeer m k ip (kvStr toks "fast" ≠ "0") (kvStr toks "ext" ≠ "0") (kvStr toks "ih" = "bad") false
-      fin m v
+    let ip := if kvStr toks "ip" ≠ "" then kvStr toks "ip" else s!"10.0.{k / 250}.{k % 250 + 1}"
+    some (.peer k ip (kvStr toks "fast" ≠ "0") (kvStr toks "ext" ≠ "0") (kvStr toks "ih" = "bad"))
   | "msg" =>
     let k := kvNat toks "p"
-    match s.findPeer k with
+    match parseMsg toks with
+    | some msg => some (.msg k msg)
     | none =>
-      -- the harness knows the peer object even after it was closed
-      fin m (if implVerdict = "skipped:no-peer" then implVerdict else "skipped:peer-closed")
-    | some _ =>
-      match parseMsg toks with
-      | none =>
-        match kvStr toks "t" with
-        | "exths" =>
-          let hasMeta := (kvStr toks "m").splitOn "+" |>.any (fun kvp => kvp.startsWith "ut_metadata:")
-          let size := if kvStr toks "size" = "true" then s.isize else kvNat toks "size"
-          let hasPex := (kvStr toks "m").splitOn "+" |>.any (fun kvp => kvp.startsWith "ut_pex:")
-          fin (handleExtHandshake m k hasMeta size hasPex)
-        | "metadata" =>
-          let i := kvNat toks "i"
-          let trueLen := if i * 16384 < s.isize then min 16384 (s.isize - i * 16384) else 0
-          let (len, good) :=
-            if kvStr toks "len" ≠ "" then (kvNat toks "len", false)
-            else if kvStr toks "data" = "flip" then (trueLen, trueLen = 0)
-            else (trueLen, true)
-          fin (handleMetadataData m k i len good)
-        | "metareject" => fin (handleMetadataReject m k)
-        | "pex" =>
-          let has (v : String) : Bool := (v.splitOn "@").length ≥ 2
-          fin (handlePex m (has (kvStr toks "added")) (has (kvStr toks "dropped")))
-        | "metareq" =>
-          -- a peer asks us for a metadata block
-          match s.findPeer k with
-          | some p =>
-            if !p.extHS || !p.extMeta then fin m
-            else if !s.info then fin (send m k s!"extmeta:type=2:piece={kvNat toks "i"}")
-            else if kvNat toks "i" * 16384 ≥ s.isize then fin (send m k s!"extmeta:type=2:piece={kvNat toks "i"}")
-            else fin (send m k s!"extmeta:type=1:piece={kvNat toks "i"}:ok")
-          | none => fin m
-        | _ => fin m implVerdict
-      | some (.piece i b l good) =>
-        if l > 16384 then fin m "skipped:reader-rejects-long-block"
-        else if s.writing.isSome then fin m "deferred"   -- parked until the write completes (see `deferredQ`)
-        else fin (handlePieceMessage m k i b l good)
-      | some msg => fin (handlePeerMessage m k msg)
-  | "dhtpeers" => fin (handleDhtPeers m ((kvStr toks "addrs").splitOn "@" |>.length |> (· ≥ 2)))
-  | "disconnect" =>
-    let k := kvNat toks "p"
-    match s.findPeer k with
-    | none => fin m (if implVerdict = "skipped:no-peer" then implVerdict else "skipped:peer-closed")
-    | some _ => fin (closePeerM m k)
-  | "snub" =>
-    let k := kvNat toks "p"
-    match s.findPeer k with
-    | none => fin m (if implVerdict = "skipped:no-peer" then implVerdict else "skipped:peer-closed")
-    | some _ => fin (handlePeerSnubbed m k)
-  | _ => { st := s, verdict := implVerdict, outs := [] }
+      match kvStr toks "t" with
+      | "exths" =>
+        let ms := (kvStr toks "m").splitOn "+"
+        let size := if kvStr toks "size" = "true" then s.isize else kvNat toks "size"
+        some (.exths k (ms.any (·.startsWith "ut_metadata:")) size (ms.any (·.startsWith "ut_pex:")))
+      | "metadata" =>
+        let i := kvNat toks "i"
+        let trueLen := if i * 16384 < s.isize then min 16384 (s.isize - i * 16384) else 0
+        if kvStr toks "len" ≠ "" then some (.metadata k i (kvNat toks "len") false)
+        else if kvStr toks "data" = "flip" then some (.metadata k i trueLen (trueLen = 0))
+        else some (.metadata k i trueLen true)
+      | "metareject" => some (.metareject k)
+      | "metareq" => some (.metareq k (kvNat toks "i"))
+      | "pex" =>
+        let has (v : String) : Bool := (v.splitOn "@").length ≥ 2
+        some (.pex k (has (kvStr toks "added")) (has (kvStr toks "dropped")))
+      | "port" => some .nop
+      | _ => none
+  | "dhtpeers" => some (.dhtpeers ((kvStr toks "addrs").splitOn "@" |>.length |> (· ≥ 2)))
+  | "disconnect" => some (.disconnect (kvNat toks "p"))
+  | "snub" => some (.snub (kvNat toks "p"))
+  | _ => none
 
 /-- Driver state: the model state plus a piece message parked while a write is in flight. -/
 structure DSt where
   s : Option St := none
   implDials : Nat := 0
-  parked : Option (Nat × Nat × Nat × Nat × Bool) := none
+  knownPeers : List Nat := []
+  parked : Parked := none
 
 def renderObs (s : St) (verdict : String) (outs : List Out) (impl : List (String × String))
     (dlTok : String) : String :=
@@ -363,30 +317,20 @@ def stepDriver (d : DSt) (op implObs : String) : DSt × String × List String :=
     if implObs = "hang" || implObs = "dead" || implObs.startsWith "panic:" then
       (d, "alive", [s!"C04 loop-{implObs.takeWhile (· ≠ ':')} op={toks.headD ""}"])
     else
-    let isPieceMsg := toks.headD "" = "msg" && kvStr toks "t" = "piece"
-    let r := if isPieceMsg && d.parked.isSome && s.writing.isSome && (s.findPeer (kvNat toks "p")).isSome && kvNat toks "l" ≤ 16384
-             then { applyOp s "obs" "" with verdict := "skipped:already-deferred" }
-             else applyOp s op implVerdict
-    -- a parked piece message is delivered once the write completed
-    let (st1, outs1, parked) :=
-      match d.parked with
-      | some (k, i, b, l, good) =>
-        if r.st.writing.isNone && r.st.panicked.isNone then
-          let m := if (r.st.findPeer k).isSome then runWorkers 12 (handlePieceMessage (r.st, r.outs) k i b l good) else (r.st, r.outs)
-          (m.1, m.2, none)
-        else (r.st, r.outs, d.parked)
-      | none => (r.st, r.outs, none)
-    let parked :=
-      if r.verdict = "deferred" then
-        match parseMsg toks with
-        | some (.piece i b l good) => some (kvNat toks "p", i, b, l, good)
-        | _ => parked
-      else parked
+    match parseOp s toks with
+    | none => (d, implObs, [])
+    | some mop =>
+    let (r, parked) := step s d.parked (fun k => d.knownPeers.contains k) mop
+    let st1 := r.st
+    let outs1 := r.outs
+    let known := match mop with
+      | .peer k _ _ _ _ => if r.verdict.startsWith "skipped" then d.knownPeers else k :: d.knownPeers
+      | _ => d.knownPeers
     -- listening on the peer port can fail for reasons outside the program (port taken): follow the implementation
     let implWorkers := commaList (((impl.find? fun (k, _) => k = "workers").map (·.2)).getD "-")
     let st1 := if st1.acceptor && !s.acceptor && !(implWorkers.contains "acceptor") then { st1 with acceptor := false } else st1
     match st1.panicked with
-    | some why => ({ d with s := some st1 }, "model-panic:" ++ why, [s!"C04 model-predicts-panic why={why.replace " " "_"}"])
+    | some why => ({ d with s := some st1, knownPeers := known }, "model-panic:" ++ why, [s!"C04 model-predicts-panic why={why.replace " " "_"}"])
     | none =>
       let implDl := parseDl (((impl.find? fun (k, _) => k = "dl").map (·.2)).getD "-")
       let (st2, errs) := reconcile st1 implDl
@@ -399,7 +343,7 @@ def stepDriver (d : DSt) (op implObs : String) : DSt × String × List String :=
       let viol := oracles s st2 impl d.implDials ++ finalOracle st2 op impl ++ c17hs ++ errs.map (fun e => "C09 picker-choice-inadmissible " ++ e.replace " " "_")
         ++ errsI.map (fun e => "C13 metadata-download-inadmissible " ++ e.replace " " "_")
       let implDials := (((impl.find? fun (k, _) => k = "dials").bind fun (_, x) => x.toNat?)).getD d.implDials
-      ({ s := some st2, parked := parked, implDials := implDials }, renderObs st2 r.verdict outs1 impl dlTok, viol)
+      ({ s := some st2, parked := parked, implDials := implDials, knownPeers := known }, renderObs st2 r.verdict outs1 impl dlTok, viol)
 
 def mkSuite (name : String) : Suite where
   name := name
